@@ -170,3 +170,13 @@ CLAIMS['C02'] = dict(
          'are proved in bounds (88 linear obligations) under the cache cursor invariant; error pages only for a non-zero status and only if nothing was written, the connection is then marked unusable; application::main runs inside catch(...); FastCGI continuations report success only for the expected record type, '
          'version-1 BEGIN_REQUEST and responder role; the cookie scanner advances on every input of length <= 2 (quick) / 3 (thorough) and is called on every loop turn, so no header can stall the event loop.',
     note='Assumes the fastcgi cursor invariant 0 <= cache_start_ <= cache_end_ <= cache_.size() at entry of the record readers and the 16-byte first-read buffer of SCGI (both stated in the evidence). Not decided: HTTP header parser state machine, chunked input, half-close timing, isolation between connections beyond "no exception / no unsafe read".')
+
+CLAIMS['C01'] = dict(
+    category='other',
+    engine='cppcms-facts + vlib (lockset access classification, linbound) rules',
+    technique='static analysis: computed who-writes sets closed over the request-boundary call graph; linear bounds (Fourier-Motzkin) of the read-ahead cursors under declared class invariants',
+    text='Exactness of parsing, equality of the three front-ends and independence from split points are statements about parsed values and are NOT decided (an off-by-one in a cursor that stays in bounds changes a byte without changing the shape of the code). '
+         'Decided clauses, both necessary for the property: (1) keep-alive hygiene - the set of fields written while a request is processed is computed from the code of http, fastcgi and the connection base class; every input-side field is written again by the closure of '
+         'keep_alive / reset_all / async_read_headers, the base-class reset is reached on every turn, or the field is on a one-symbol allow-list with its reason; SCGI, which has no reset, never reports keep-alive; '
+         '(2) the read-ahead cursors - every memcpy / memmove / index out of the FastCGI record cache, FastCGI body and HTTP input buffer is proved inside its buffer (141 linear obligations) under the cursor invariants.',
+    note='Assumes the cursor invariants at member-function entry and that an asynchronous read completes with at most the bytes of its buffer (stated in the evidence). The allow-list (17 symbols) is part of the trusted base.')
